@@ -274,11 +274,14 @@ class Prop:
 
 def evaluate(prop, cases):
     """impl + model + monitor for a list of cases. Returns list of records."""
+    import contextlib
+    import io as _io
     recs = []
     lines = []
     for c in cases:
         try:
-            io = prop.impl(c)
+            with contextlib.redirect_stdout(_io.StringIO()):
+                io = prop.impl(c)
         except Exception as e:  # harness-level failure of the impl runner
             io = {'harness_exception': f'{type(e).__name__}: {e}'}
         line = dict(c)
@@ -290,6 +293,10 @@ def evaluate(prop, cases):
         r['fatal'] = o.get('fatal')
         r['model'] = o.get('model')
         r['failed'] = o.get('failed', [])
+        if isinstance(r['impl'], dict) and 'harness_exception' in r['impl']:
+            # a failure of the harness itself is never a property violation
+            r['fatal'] = 'harness: ' + r['impl']['harness_exception']
+            r['failed'] = []
         if r['fatal'] is None:
             pm, pi = prop.project(r['case'], r['model']), prop.project(r['case'], r['impl'])
             r['agree'] = canon(pm) == canon(pi)
@@ -308,7 +315,11 @@ def write_replay(prop, kind, seed, tier, rec, extra=None):
     h = hashlib.sha256(canon(d).encode()).hexdigest()[:10]
     os.makedirs(os.path.join(VERIF, 'replays'), exist_ok=True)
     path = os.path.join(VERIF, 'replays', f'{prop.id}-{h}.json')
-    json.dump(d, open(path, 'w'), indent=1, ensure_ascii=False)
+    try:
+        text = json.dumps(d, indent=1, ensure_ascii=False)
+    except RecursionError:
+        text = json.dumps(d, ensure_ascii=False)   # very deep documents: compact C encoder
+    open(path, 'w').write(text)
     return path
 
 
@@ -375,7 +386,7 @@ def run_check(prop, argv=None):
             sh = prop.shape(r['case'], r['impl'])
             if sh is not None:
                 shapes.add((stream, sh))
-            if len(samples) < 4 and st['cases'] in (1, 7):
+            if len(samples) < 4 and st['cases'] in (1, 7) and len(canon(r['case'])) < 4000:
                 samples.append({'stream': stream, 'case': r['case'], 'impl': r['impl']})
             if r.get('fatal'):
                 r['failed'] = []
@@ -427,7 +438,7 @@ def run_check(prop, argv=None):
 
     if failures:
         stream, r = failures[0]
-        if 'case' in r and r.get('case') is not None and not r.get('noshrink'):
+        if 'case' in r and r.get('case') is not None and not r.get('noshrink') and not r['case'].get('noshrink'):
             try:
                 small = shrink_json(r['case'], still_fails_factory(r['failed']))
                 rs = evaluate(prop, [small])
